@@ -25,7 +25,10 @@ import YashModel.Executor.Tables
 import YashModel.Executor.Nested
 import YashModel.Executor.NestedFifo
 import YashModel.Executor.NestedLive
+import YashModel.Executor.NestedSim
+import YashModel.Executor.NestedTerm
 import YashModel.Executor.RcProj
+import YashModel.Executor.RcRefs
 namespace YashModel.Executor
 
 /-- a state the executor can be in: `n` steps into the run of some task system -/
@@ -933,5 +936,85 @@ open Nested in
 /-- three tasks, nested steps and cross-wake-ups, no guard panic: the run stalls after 4 top-level steps with all done -/
 example : let s := nStepN 10 (nInit [[.nest, .yield, .nest], [.wake 0, .yield], [.nest]])
     s.panicked = false ∧ s.queue = [] ∧ s.fut 0 = none ∧ s.fut 1 = none ∧ s.fut 2 = none := by decide
+
+open Rc in
+/-- ★ The strong count that waker.rs / task.rs / executor.rs maintain operation by operation IS the derived count
+    `refs` of Model.lean, unconditionally: for every task system whose `wait` channels are below `nch` and every
+    operation sequence of the `v` leg (steps, batches, outside wakes by value / by reference / through clones,
+    dropped wakers, signals, spawns, `try_receive`, the executor dropped), after every operation — the ghost flag of
+    the instrumentation is clear (it never consumed a `Waker` or handle that does not exist), no count was ever
+    decremented at zero (no use after free, no double free), no local handle is left, and for every task
+    `Rc::strong_count` = queue entries + wakers registered with channels + wakers stored in relays.  Hence a
+    task's future is freed (count 0) exactly when the model says it is lost (`lostB`) or it has completed and
+    nobody refers to it — what the harness observes through its Drop probes (`!t`) is proved of the transcribed
+    count, not only compared.  (Closes the condition `gunder = false` of `rc_counting`.) -/
+theorem rc_is_refs (sticky : Bool) (scripts : List Script) (roots : Nat) (ops : List XOp) (nch : Nat)
+    (hsc : ∀ sc, sc ∈ scripts → ∀ k, Action.wait k ∈ sc → k < nch) :
+    let r := rRunAll (rInit sticky scripts roots) ops
+    r.gunder = false ∧ r.under = false ∧
+    (∀ t, r.strong t = refs r.s nch t ∧ r.loc t = 0) ∧
+    (∀ t, (r.s.fut t).isSome = true → (r.strong t = 0 ↔ lostB r.s nch t = true)) ∧
+    rcCheck r nch = none := by
+  have h0 : Same (rInit sticky scripts roots) { s := init sticky scripts roots } :=
+    ⟨(rInit_p sticky scripts roots).1, (rInit_p sticky scripts roots).2⟩
+  have hb : AtB nch (rRunAll (rInit sticky scripts roots) ops) :=
+    atB_rRunAll ops _ _ h0 (xinv_init sticky scripts roots) (atB_rInit sticky scripts roots hsc)
+  obtain ⟨hbal, hun, _⟩ := (rc_counting sticky scripts roots ops).2 hb.cnt.g
+  exact refs_of_atB _ hb hbal hun
+
+/-- the hypothesis is met by the systems of the other examples (channels 0 … nch-1) -/
+example : ∀ sc, sc ∈ [[Action.wait 0, .yield], [.wait 0]] → ∀ k, Action.wait k ∈ sc → k < 1 := by
+  intro sc hs k hk
+  simp at hs
+  rcases hs with rfl | rfl <;> simp at hk <;> omega
+
+open Nested in
+/-- ★ The two models are the same executor where they overlap (until wave 3 the nested-step model was "a separate
+    small model", tied to the code by its own leg of the run only): for every system of root tasks whose scripts
+    use only the actions both models have — `Y` (wake the own waker, `Pending`) and `C` / end of script — and
+    every number of `Executor::step` calls, the nested-step model and the main model have the same wake queue,
+    the same number of tasks, the same future slots (script by script), and the same trace (`enter`/`exit`/`noop`
+    = `poll`/`ret`/`noop`); so on this fragment every theorem about `stepN` above (the 13-clause invariant, the
+    FIFO bound, termination, delivery) is a theorem about the nested-step model, and `nested_fifo` /
+    `nested_no_lost` / `nested_step_safe` extend them to nesting and cross-wake-ups. -/
+theorem nested_agrees_with_main (sticky : Bool) (scripts : List NScript) (hyc : ∀ sc, sc ∈ scripts → ycOnly sc)
+    (n : Nat) :
+    let ns := nStepN n (nInit scripts)
+    let s := stepN n (init sticky (scripts.map toScript) scripts.length)
+    ns.queue = s.queue ∧ ns.ntasks = s.ntasks ∧ (∀ t, s.fut t = (ns.fut t).map toScript) ∧
+    s.log = ns.log.map toEv ∧ ns.panicked = false ∧ ns.stack = [] := by
+  intro ns s
+  have h : Sim ns s := sim_stepN n _ _ (sim_init sticky scripts hyc)
+  exact ⟨h.q, h.n, h.fut, h.log, h.idle.2, h.idle.1⟩
+
+open Nested in
+example : ∀ sc, sc ∈ [[NAct.yield, .yield], [.yield, .complete, .yield], []] → ycOnly sc := by
+  intro sc hs a ha
+  simp at hs
+  rcases hs with rfl | rfl | rfl <;> simp at ha <;> rcases ha with rfl | rfl | rfl <;> simp
+
+open Nested in
+example : (nStepN 3 (nInit [[.yield, .yield], [.yield, .complete, .yield], []])).queue = [0, 1] ∧
+    (stepN 3 (init false [[.yield, .yield], [.yield, .complete, .yield], []] 3)).queue = [0, 1] := by decide
+
+open Nested in
+/-- ★ The run loop terminates also when futures call `Executor::step` from inside their polls ("termination of
+    the nested run loop is by budget only" until wave 3): `nWork` — the actions left in all slots plus one per
+    unfinished task — never grows during a top-level step, whatever is polled inside whatever; every step that
+    enters a future lowers it, a step that pops an emptied slot shortens the queue by one, and the queue never
+    holds more than `ntasks` entries: `nStallBound = nWork·(ntasks+1) + |queue|` strictly decreases with every
+    top-level step that does not end in the guard panic.  So from every state of every nested-step system,
+    `nStallBound` top-level steps reach the stall (empty queue) or the guard panic; the driver checks
+    `nStallBound ≤` its budget for every case, so `end=cut` is never printed. -/
+theorem nested_run_terminates (scripts : List NScript) (n : Nat) :
+    let s := nStepN n (nInit scripts)
+    (∀ s', nStep s = some s' → s'.panicked = false → nStallBound s' < nStallBound s) ∧
+    (∀ m, nStallBound s ≤ m → (nStepN m s).queue = [] ∨ (nStepN m s).panicked = true) := by
+  intro s
+  have h : NTop s := ntop_stepN n (ntop_init scripts)
+  exact ⟨fun s' hs hp => nStallBound_step h hs hp, fun m hm => nStepN_stalls m h hm⟩
+
+open Nested in
+example : nStallBound (nInit [[.nest, .yield, .nest], [.wake 0, .yield], [.nest]]) = 39 := by decide
 
 end YashModel.Executor
